@@ -1,6 +1,7 @@
 import Failsafe.Conc.Cancel
 import Failsafe.Exec
 import Failsafe.Generated.Facts
+import Failsafe.Lemmas.ExecBodiesLink
 /-!
 # C08 — cancellation stops the execution promptly and is reported as its cause
 
@@ -163,5 +164,73 @@ theorem wait_misattribution_witness_previous_shape :
   decide
 
 end waits
+
+/-! ## The cancel cell of `execution.go`, on the regenerated bodies
+
+`ExecBodies.isCanc / cancel / initializeRetry / recordResult` are the reference definitions the bodies of `isCanceledWithResult`,
+`Cancel`, `InitializeRetry` and `RecordResult` — regenerated from the source on every run — are proved equal to
+(`Tie/XExecution.lean`); `isCanc_link` shows that the composition model's `Run.isCanc` / `Run.cancelRes` are exactly
+`isCanceledWithResult` of the execution state a run abstracts. -/
+section cell
+open Failsafe Failsafe.ExecBodies
+
+/-- **the first cancellation wins**: once an execution that owns a cancel function has been cancelled, a later `Cancel` changes
+nothing — the result the caller is told stays the first cause -/
+theorem cancel_first_wins (s : XSt) (r1 r2 : Option PR) (hcf : s.cancelFunc.isSome = true) :
+    cancel (cancel s r1) r2 = cancel s r1 := by
+  unfold cancel
+  cases hc : (isCanc s).1
+  · obtain ⟨u, hu⟩ := Option.isSome_iff_exists.1 hcf
+    have hne : s.ctxErr = none := by
+      unfold isCanc at hc; cases h : s.ctxErr <;> simp_all
+    cases r1 <;> simp [hu, callCancelFunc, isCanc, hne]
+  · simp [hc]
+
+/-- **a cancellation is reported as its cause**: after `Cancel(result)` of an execution that was not cancelled and owns a cancel
+function, `isCanceledWithResult` answers exactly that result -/
+theorem cancel_reports_result (s : XSt) (r : PR) (hn : (isCanc s).1 = false) (hcf : s.cancelFunc.isSome = true) :
+    isCanc (cancel s (some r)) = (true, some r) := by
+  obtain ⟨u, hu⟩ := Option.isSome_iff_exists.1 hcf
+  have hne : s.ctxErr = none := by
+    unfold isCanc at hn; cases h : s.ctxErr <;> simp_all
+  simp [cancel, hn, hu, callCancelFunc, isCanc, hne]
+
+/-- a context that ends by itself (caller's cancel, deadline) is reported with the context's own error, final and not a success -/
+theorem ctx_end_reports_ctx_error (s : XSt) (e : Err) (h1 : s.ctxErr = some e) (h2 : s.cell = none) :
+    isCanc s = (true, some (failureResult e)) := by
+  simp [isCanc, h1, h2, failureResult]
+
+/-- the shape D3 repaired, on the regenerated `Cancel`: **without** a cancel function the stored result is not visible to
+`isCanceledWithResult` (the context is not done), and the next `InitializeRetry` erases it — the caller would later be told the
+bare context error. `rootHasCancelFunc` (FACTS) says the async root execution owns one. -/
+theorem cancel_without_cancelFunc_is_lost (s : XSt) (r : PR) (h1 : s.ctxErr = none) (h2 : s.cancelFunc = none) :
+    isCanc (cancel s (some r)) = (false, none) ∧ (initializeRetry (cancel s (some r))).2.cell = none := by
+  simp [cancel, isCanc, h1, h2, initializeRetry]
+
+/-- **no attempt is counted for a cancelled execution**: `InitializeRetry` answers the cancel result and leaves every counter and
+the cell untouched -/
+theorem initializeRetry_cancelled (s : XSt) (h : (isCanc s).1 = true) : initializeRetry s = ((isCanc s).2, s) := by
+  simp [initializeRetry, h]
+
+/-- otherwise it counts the attempt and clears the cell, so that a cancellation *result* a finished Timeout scope left behind
+cannot be mistaken for the cause of a later cancellation (what S-C07-5 / the first round-9 change to C01 remove) -/
+theorem initializeRetry_clears_cell (s : XSt) (h : (isCanc s).1 = false) :
+    (initializeRetry s).1 = none ∧ (initializeRetry s).2.cell = none ∧ (initializeRetry s).2.attempts = s.attempts + 1 := by
+  simp [initializeRetry, h]
+
+/-- a result is not recorded on a cancelled execution: the caller-visible last outcome stays what the cancellation stored -/
+theorem recordResult_cancelled (s : XSt) (r : Option PR) (h : (isCanc s).1 = true) : recordResult s r = ((isCanc s).2, s) := by
+  simp [recordResult, h]
+
+/-- **the composition model's cancel answers are the code's**: `Run.isCanc` and `Run.cancelRes` are `isCanceledWithResult` of the
+abstracted execution state -/
+theorem model_cancel_answers_are_the_codes (r : Failsafe.Exec.Run) :
+    isCanc (Failsafe.Lemmas.ExecBodiesLink.toX r) = (r.isCanc, if r.isCanc then some r.cancelRes else none) :=
+  Failsafe.Lemmas.ExecBodiesLink.isCanc_link r
+
+example : isCanc (cancel { cancelFunc := some () } (some (failureResult Err.execCanceled))) = (true, some (failureResult Err.execCanceled)) := by decide
+example : (initializeRetry (cancel {} (some (failureResult Err.execCanceled)))).2.cell = none := by decide
+
+end cell
 
 end Failsafe.Props.C08
